@@ -398,6 +398,9 @@ def pad(
     ):
         # TODO: Think about case when boundary is specified but boundary_width is None or (0,0).
         # TODO: No padding would occur in that situation. Should we warn the user?
+        # A vector component comes back as a plain array, like every padded result
+        if isinstance(data, dict):
+            (data,) = data.values()
         return data
 
     # TODO: Refactor, if the max value is 0, complain.
